@@ -25,6 +25,7 @@ int main(int argc, char** argv)
     add("C11", api::prop_c11, 3, 16, 260);
     add("C15", api::prop_c15, 3, 24, 260);
     add("C16", api::prop_c16, 3, 16, 260);
+    add("C14", api::prop_c14, 2, 6, 260, 120);
     add("REG", api::prop_reg, 1, 1, 2, 120);
     return vf::pbt_main(argc, argv, specs);
 }
